@@ -5,6 +5,7 @@ import (
 	"os"
 
 	vm "github.com/pojntfx/stfs/internal/verifmodel"
+	"github.com/pojntfx/stfs/pkg/config"
 )
 
 type c05Snap struct {
@@ -39,7 +40,12 @@ func c05PrefixIntact(t *vm.Tape, s c05Snap) bool {
 // tape untouched; a fault-free call that wrote something leaves a 512-aligned tape whose new part is a
 // sequence of complete PAX members followed by a trailer, with STFS action records where required.
 func Harness_C05_append_only_and_wellformed() {
-	v := c10Prestate()
+	// with and without a compressor in the pipeline (an empty content then still has a non-empty stream)
+	pipes := config.PipeConfig{}
+	if vm.Bool("gzip") {
+		pipes.Compression = config.CompressionFormatGZipKey
+	}
+	v := c10PrestateWith(pipes)
 	op := vm.Choice("op", c10Ops)
 	name := c10Names[vm.Choice("name", len(c10Names))]
 	other := c10Names[vm.Choice("other", 2)+3]
@@ -71,15 +77,20 @@ func Harness_C05_append_only_and_wellformed() {
 			vm.Assert("C05.appended_archive_ends_with_trailer", newSegs[len(newSegs)-1].Kind == vm.SegTrailer)
 			vm.Assert("C05.appended_archive_starts_with_member", newSegs[0].Kind == vm.SegMember)
 		}
-		if err != nil && op != 3 && op != 14 && op != 2 {
+		if err != nil && op != 3 && op != 14 && op != 2 && op != 15 {
 			// a rejected call (precondition failure) appends nothing; calls that create first and then
 			// write (2, 3, 14) are excluded because their first half may legitimately have succeeded
 			vm.Assert("C05.rejected_call_appends_nothing", len(newSegs) == 0)
 		}
-		if op == 3 && err == nil {
+		if op == 3 && err == nil && pipes.Compression == "" {
 			// content written through the handle is the member's data
+			// (two bytes written at offset 0 without O_TRUNC: "/d/g" held three zero bytes before and keeps the third)
+			want := "ab"
+			if name == "/d/g" {
+				want = "ab\x00"
+			}
 			last := t.LastMember()
-			vm.Assert("C05.member_data_equals_written_content", last != nil && string(last.Data) == "ab" && last.Hdr.PAXRecords["STFS.Action"] == "UPDATE")
+			vm.Assert("C05.member_data_equals_written_content", last != nil && string(last.Data) == want && last.Hdr.PAXRecords["STFS.Action"] == "UPDATE")
 		}
 	}
 	vm.Cover("C05.something_appended", len(t.Segs) > len(snap.segs))
